@@ -660,7 +660,20 @@ impl VLog {
 			// Look for VLog files
 			if let Some(file_id) = self.opts.extract_vlog_file_id(&file_name_str) {
 				let file_path = entry.path();
-				let file_size = entry.metadata()?.len();
+				let mut file_size = entry.metadata()?.len();
+
+				// A file shorter than its header is what an interrupted or failed creation
+				// leaves behind. No pointer can name an offset inside it, so it is emptied:
+				// an empty file is accepted below and gets its header when it is written to.
+				if file_size > 0 && file_size < VLogFileHeader::SIZE as u64 {
+					log::warn!(
+						"VLog file {file_name_str} holds {file_size} bytes of a torn header; emptying it"
+					);
+					let torn = OpenOptions::new().write(true).open(&file_path)?;
+					torn.set_len(0)?;
+					torn.sync_all()?;
+					file_size = 0;
+				}
 
 				// Track the file with maximum ID for active writer setup
 				if max_file_id.is_none_or(|current_max| file_id >= current_max) {
